@@ -71,3 +71,128 @@ def _(c):
     c.only_raises()
     c.ensures('typing-policy', lambda s: s.result == entry_type_policy(s.path))
     c.ensures('file-style-tag', lambda s: z3.Or(*[s.result == z3.StringVal(t) for t in ('DATA', 'MISC', 'EBUILD', 'AUX')]))
+
+
+# ---------------------------------------------------------------------------------------------------------------------------
+# defaults applied to the loader (C19: "applies the profile's default hashes / sorting / compression watermark and format
+# only where the caller gave none") -- every option is kept when given (also when it is falsy: 0, False, '') and nothing else
+# of the loader is touched
+
+LOADER_OPTIONS = ('hashes', 'sort', 'compress_watermark', 'compress_format')
+
+
+def _same_opt(a, b):
+    return S.And(S.Iff(S.opt_none(a), S.opt_none(b)), S.Implies(S.Not(S.opt_none(a)), S.Eq(S.opt_val(a), S.opt_val(b))))
+
+
+def _kept(s, field):
+    return _same_opt(getattr(s.old.loader, field), getattr(s.cur.loader, field))
+
+
+@contract('gemato/profile.py', 'DefaultProfile.set_loader_options', props=['C19'])
+def _(c):
+    c.params(self=Obj('DefaultProfile'), loader=Obj('ManifestRecursiveLoader'))
+    c.returns(NoneT)
+    c.only_raises()
+    c.frame()
+    for f in LOADER_OPTIONS:
+        c.ensures('keeps-' + f, lambda s, f=f: _kept(s, f))
+
+
+def _is_default(x, f):
+    v = S.opt_val(x)
+    if f == 'hashes':
+        return S.And(S.Not(S.opt_none(x)), S.seq_is(v, ['BLAKE2B', 'SHA512']))
+    if f == 'sort':
+        # `is True`: the CPython reading must not accept 1
+        return S.And(S.Not(S.opt_none(x)), v if S.sym(v) else v is True)
+    if f == 'compress_watermark':
+        return S.And(S.Not(S.opt_none(x)), S.Eq(v, 128) if S.sym(v) else (v == 128 and type(v) is int))
+    return S.And(S.Not(S.opt_none(x)), S.Eq(v, 'gz'))
+
+
+@contract('gemato/profile.py', 'EbuildRepositoryProfile.set_loader_options', props=['C19'])
+def _(c):
+    c.params(self=EbuildProfiles, loader=Obj('ManifestRecursiveLoader'))
+    c.returns(NoneT)
+    c.only_raises()
+    c.frame(*[('loader', f) for f in LOADER_OPTIONS])
+    for f in LOADER_OPTIONS:
+        c.ensures('explicit-%s-kept' % f,
+                  lambda s, f=f: S.Implies(S.Not(S.opt_none(getattr(s.old.loader, f))), _kept(s, f)))
+        c.ensures('default-%s' % f,
+                  lambda s, f=f: S.Implies(S.opt_none(getattr(s.old.loader, f)), _is_default(getattr(s.cur.loader, f), f)))
+
+
+# ---------------------------------------------------------------------------------------------------------------------------
+# default IGNORE entries of a new Manifest (C19: "adds exactly the documented default IGNORE entries")
+
+IGNORE_TABLE = [
+    ((''), ('distfiles', 'local', 'lost+found', 'packages')),
+    (('metadata'), ('timestamp', 'timestamp.chk', 'timestamp.commit', 'timestamp.x')),
+    (('metadata/dtd'), ('timestamp.chk', 'timestamp.commit')),
+    (('metadata/glsa'), ('timestamp.chk', 'timestamp.commit')),
+    (('metadata/news'), ('timestamp.chk', 'timestamp.commit')),
+    (('metadata/xml-schema'), ('timestamp.chk', 'timestamp.commit')),
+]
+
+
+def _tuple_is(result, names):
+    """the returned Python tuple (a tuple of string terms / of strings) is exactly `names`, in this order"""
+    if not isinstance(result, tuple) or len(result) != len(names):
+        return False
+    return S.And(*[S.Eq(r, n) for r, n in zip(result, names)]) if names else True
+
+
+def ignore_policy_holds(relpath, result):
+    row = [S.Implies(S.Eq(relpath, k), _tuple_is(result, v)) for k, v in IGNORE_TABLE]
+    other = S.Implies(S.And(*[S.Not(S.Eq(relpath, k)) for k, _ in IGNORE_TABLE]), _tuple_is(result, ()))
+    return S.And(*(row + [other]))
+
+
+@contract('gemato/profile.py', 'DefaultProfile.get_ignore_paths_for_new_manifest', props=['C19'])
+def _(c):
+    c.params(self=Obj('DefaultProfile'), relpath=Str)
+    c.returns(Any)
+    c.only_raises()
+    c.ensures('none', lambda s: _tuple_is(s.result, ()))
+
+
+@contract('gemato/profile.py', 'EbuildRepositoryProfile.get_ignore_paths_for_new_manifest', props=['C19'])
+def _(c):
+    c.params(self=EbuildProfiles, relpath=Str)
+    c.returns(Any)
+    c.only_raises()
+    c.ensures('documented-ignores', lambda s: ignore_policy_holds(s.relpath, s.result))
+
+
+# ---------------------------------------------------------------------------------------------------------------------------
+# compression under the backwards-compatible profile (C19/C13: a Manifest with an EBUILD entry, i.e. a package Manifest,
+# is never compressed; every other one follows the default watermark policy)
+
+no_ebuild = S.Fold(
+    'no_ebuild', z3.BoolSort(),
+    init=lambda env: True,
+    step=lambda env, acc, e, idx: S.And(acc, S.Not(S.Eq(e.tag, 'EBUILD'))),
+    heap_fields=('__class__',), objects=True)
+
+
+@contract('gemato/profile.py', 'BackwardsCompatEbuildRepositoryProfile.want_compressed_manifest', props=['C13', 'C19'])
+def _(c):
+    c.params(self=Obj('BackwardsCompatEbuildRepositoryProfile'), relpath=Str, manifest=Obj('ManifestFile'), unc_size=Int,
+             compress_watermark=Int)
+    c.returns(Bool)
+    c.only_raises()
+    c.loop(1, header='for e in manifest.entries',
+           inv=[('no-earlier-ebuild', lambda s: no_ebuild(s, s.seq, s.i))])
+    def post(s):
+        n = z3.Length(s.manifest.entries)
+        default = z3.And(s.unc_size >= s.compress_watermark, s.relpath != z3.StringVal('Manifest'))
+        j = s.i1
+        has_ebuild = z3.And(j >= 0, j < n, s.obj(s.manifest.entries[j]).tag == z3.StringVal('EBUILD'))
+        return z3.If(s.result, z3.And(no_ebuild(s, s.manifest.entries, n), default), z3.Or(z3.Not(default), has_ebuild))
+
+    def post_py(s):
+        plain = any(e.tag == 'EBUILD' for e in s.manifest.entries)
+        return s.result == ((not plain) and s.unc_size >= s.compress_watermark and s.relpath != 'Manifest')
+    c.ensures('package-manifests-stay-plain', post, py=post_py)
